@@ -218,6 +218,7 @@ def run_one(cfg, tape, want_trace=False):
                 k.kill_process(pid)
 
             fs.on_death = on_death
+            fs.lock_close_hook = simos.foreign_close
 
             def die_hook():
                 raise SimAbort()
